@@ -17,6 +17,7 @@ RULE = (
     "complete product (grid x mask x radius x width x position class per axis x sub-cell offset per axis) x threshold rule x intensity "
     "option; two-droplet configurations with surface gap >= 10 widths; droplets are kept inside non-periodic boxes with a margin of "
     "R + 3w; strongly non-square boxes (18x40, 40x18; thorough 12x12x30) with every straddling class; big + small pairs (R 14 / 3.2, gap 10 w); non-trivial = every case (each involves at least one least-squares fit)"
+    " plus annular grids, cylindrical z ranges excluding 0, and histories in fresh forks: all ordered pairs/triples of five intensity maps sharing one refine_args dict, and twelve analyses on one shared grid object"
 )
 ASSUMPTIONS = [
     "radius >= 3.2 cells, width 1-2 cells, mild anisotropy (1 : 1.25) as stated; recovery demanded to 1e-4 relative (position: 1e-4 dx)",
